@@ -112,3 +112,18 @@ def c02(run):
                             n_files=4 if q else 16, n_events=5000 if q else 20000)
     run.assumptions += [W8, BOUNDED, STD_GUARD,
                         "zero-sized elements: only the length of a result is observable, offsets are not compared"]
+
+
+# ------------------------------------------------------------------------------------------- C03
+@check("C03", rule="one case = (operation, string, index or index pair incl. start>end and indices at the "
+                    "isize/usize boundaries); non-trivial = the string contains a multi-byte character")
+def c03(run):
+    q = run.tier == "quick"
+    out = vec("C03-StrIndex.ndjson")
+    run.mc("MC_StrIndex", "StrIndex.quick.cfg" if q else "StrIndex.thorough.cfg", env={"OUT": out},
+           need_actions=("Check", "Unsafe"), heap="8g", timeout=3000)
+    run.sample_file(out)
+    run.replay([out], "StrIndex vectors")
+    run.record_and_validate("StrIndex", "Trace_StrIndex", "Trace_StrIndex.cfg",
+                            n_files=4 if q else 16, n_events=5000 if q else 20000)
+    run.assumptions += [W8, BOUNDED, STD_GUARD]
